@@ -16,6 +16,7 @@
 import json, os, sys, zlib
 from . import common as C
 from . import c17_adapter as A
+from . import c17_query as Q
 
 PID = "C17"
 
@@ -75,21 +76,22 @@ def configs(tier, seed):
     cfgs = [
         dict(name="units", T=[a_f, a_i, a_d, gx_c, px], M=[m_f2, m_f, m_i, m_s], SL=[], HU=[u1, u2, "s"],
              bounds=B(3 if th else 2, 2 if th else 1, 1, 1, kinds=["inj"]), modes=[]),
-        dict(name="imports", T=[a_i, a_d, gx_c, gx_i, gkz, gy, gqx, p_, px] if th else [a_d, gx_c, gkz, gy, gqx, p_, px],
+        dict(name="imports", T=[a_i, a_d, gx_c, gx_i, gkz, gy, gqx, p_, px] if th else [a_d, gx_c, gkz, gqx, p_, px],
              M=[m_f2, m_i0, m_b, m_t], SL=[], HU=[],
              bounds=B(4 if th else 3, 1, 1, 1, kinds=["imp"], fewhosts=not th), modes=[]),
         dict(name="modes", T=[a_f, a_d, gx_i, gy] + ([gx_c, gkz] if th else []), M=[m_f2, m_i0, m_t], SL=slices[8:9], HU=[u2],
              bounds=B(3 if th else 2, 1, 1, 1, fewhosts=True), modes=["base", "remote"]),
-        dict(name="arrays", T=[v1, v1u, w2, gm, gs, ge, t2], M=[ma1, ma2, m_t, m_i0, ma3], SL=slices, HU=[u1],
+        dict(name="arrays", T=[v1, v1u, w2, gm, gs, ge, t2] if th else [v1u, w2, gs, t2],
+             M=[ma1, ma2, m_t, m_i0, ma3] if th else [ma1, ma2, m_t], SL=slices, HU=[u1],
              bounds=B(3 if th else 2, 1, 1, 1, fewhosts=True), modes=["remote"] if th else []),
         dict(name="chain", T=[a_f, gx_i] + ([a_d] if th else []), M=[m_f2, m_i0], SL=[], HU=[u2] if th else [],
-             bounds=B(2, 1 if th else 0, 2, 1, fewhosts=True), modes=["base", "remote"]),
+             bounds=B(2, 1 if th else 0, 2, 1, fewhosts=True), modes=["base", "remote"] if th else ["remote"]),
         dict(name="chain-arrays", T=[w2, v1], M=[ma2], SL=slices[1:2] + slices[3:4] + slices[5:6], HU=[],
              bounds=B(1, 1 if th else 0, 2, 1, fewhosts=True, kinds=["inj", "imp"] if th else ["inj"]), modes=["remote"] if th else []),
     ]
     # values 0, 0.0 and false as definitions and as later modifications; a unit stated for a unit-less node
     zeros = dict(name="zeros",
-                 T=[a_f, a_i, tpl("n", "int", num(k + 1)), tpl("z", "bool", True), tpl("g.x", "float", num(0), u1)],
+                 T=[a_f] + ([a_i] if th else []) + [tpl("n", "int", num(k + 1)), tpl("z", "bool", True), tpl("g.x", "float", num(0), u1)],
                  M=[lit("float", num(0), u2), lit("float", num(0)), lit("int", num(0)), m_i, m_b],
                  SL=[], HU=[u2], bounds=B(2, 2 if th else 1, 1, 1, fewhosts=True), modes=["base", "remote"] if th else [])
     # a custom unit of the file ($unit hm = 100 m): referenced node in [hm] and host in an ordinary unit, and vice versa
@@ -161,11 +163,11 @@ CHECK_DEADLOCK FALSE
 """
 
 
-def run_tlc(wd, cf, copy_on_parse=True, emit=True, coverage=False, devs=None):
+def run_tlc(wd, cf, copy_on_parse=True, emit=True, coverage=False, devs=None, workers=None):
     mod, cfg = mc_module(cf["T"], cf["M"], cf["SL"], cf["HU"], cf["bounds"], cf["modes"], copy_on_parse, emit, devs)
     with open(os.path.join(wd, "DipRefsMC.tla"), "w") as f:
         f.write(mod)
-    return C.run_tlc(wd, "DipRefsMC", cfg, coverage=coverage, want_records=emit)
+    return C.run_tlc(wd, "DipRefsMC", cfg, coverage=coverage, want_records=emit, workers=workers)
 
 
 # ----------------------------------------------------------------------------- replay of one record
@@ -270,11 +272,11 @@ CHECK_DEADLOCK FALSE
     return mod, cfg
 
 
-def run_base_tlc(wd, base, child, maxops, mode="deep", emit=True):
+def run_base_tlc(wd, base, child, maxops, mode="deep", emit=True, workers=None):
     mod, cfg = base_mc(base, child, maxops, mode, emit)
     with open(os.path.join(wd, "DipBaseMC.tla"), "w") as f:
         f.write(mod)
-    return C.run_tlc(wd, "DipBaseMC", cfg, want_records=emit)
+    return C.run_tlc(wd, "DipBaseMC", cfg, want_records=emit, workers=workers)
 
 
 def replay_hist(hist):
@@ -304,6 +306,30 @@ def replay_hist(hist):
 
 
 # ----------------------------------------------------------------------------- the check
+
+class C17Jobs:
+    """TLC jobs by name: all started at once on a small thread pool (quick), or run when first asked for."""
+
+    def __init__(self, jobs, wd, parallel):
+        self.jobs, self.wd, self.done = jobs, wd, {}
+        self.futures = None
+        if parallel:
+            from concurrent.futures import ThreadPoolExecutor
+            n = max(1, min(4, C.NCPU))
+            self.pool = ThreadPoolExecutor(n)
+            w = max(1, C.NCPU // n)
+            self.futures = {k: self.pool.submit(self._run, k, w) for k in jobs}
+
+    def _run(self, name, workers):
+        sub = os.path.join(self.wd, "tlc-" + "".join(ch if ch.isalnum() else "_" for ch in name))
+        os.makedirs(sub, exist_ok=True)
+        return self.jobs[name](sub, workers)
+
+    def get(self, name):
+        if self.futures is not None:
+            return self.futures.pop(name).result()
+        return self._run(name, None)
+
 
 def slim(rec):
     return {k: rec[k] for k in ("mode", "prog", "ideal", "mach", "tags", "snap", "_style", "_cfg") if k in rec}
@@ -351,10 +377,22 @@ def run(replay=None):
     tier, seed = C.tier(), C.seed()
     cfgs = configs(tier, seed)
     states, trans, per_cfg, nrec = 0, 0, {}, 0
+    # ---- all TLC jobs of the run.  quick: started together (JVM start-up dominates small configurations), each in its
+    # own directory; thorough: one after the other, results dropped after replay (bounded memory)
+    bt, ct = base_texts(tier, seed)
+    maxops = 3 if tier == "quick" else 4
+    cf0 = dict(cfgs[2], bounds=dict(cfgs[2]["bounds"], **{"def": 2, "ref": 1, "late": 0}))
+    jobs = {"cfg:" + cf["name"]: (lambda sub, w, cf=cf: run_tlc(sub, cf, workers=w)) for cf in cfgs}
+    jobs["base"] = lambda sub, w: run_base_tlc(sub, bt, ct, maxops, workers=w)
+    for mode in ("alias_if_no_nodes", "share_branching", "alias"):
+        jobs["base-sens:" + mode] = lambda sub, w, mode=mode: run_base_tlc(sub, bt, ct, 3, mode=mode, emit=False, workers=w)
+    jobs["nocopy"] = lambda sub, w: run_tlc(sub, cf0, copy_on_parse=False, emit=False, workers=w)
+    jobs.update(Q.tlc_jobs(tier, seed))
+    get = C17Jobs(jobs, wd, parallel=(tier == "quick")).get
     stats, devs, samples = collections.Counter(), collections.Counter(), []
     nontrivial = 0
     for cf in cfgs:                                   # one configuration at a time (bounded memory)
-        r = run_tlc(wd, cf)
+        r = get("cfg:" + cf["name"])
         if r.violated:
             raise C.MachineryError(f"DipRefs ({cf['name']}): invariant {r.violated} violated - the machine transcription "
                                    f"disagrees with the ideal outside the named deviations:\n{r.cex[:1500]}")
@@ -383,9 +421,7 @@ def run(replay=None):
         nrec += len(recs)
         del recs, results
     # ---- the ParseOnTop family: histories of parses over environment objects (DipBase.tla)
-    bt, ct = base_texts(tier, seed)
-    maxops = 3 if tier == "quick" else 4
-    rb = run_base_tlc(wd, bt, ct, maxops)
+    rb = get("base")
     if rb.violated:
         raise C.MachineryError(f"DipBase: {rb.violated} violated with CopyMode deep:\n{rb.cex[:1200]}")
     hists = rb.records
@@ -400,7 +436,7 @@ def run(replay=None):
                    det.get("expected"), det.get("observed"), det["clause"], tags=["base-history"], failure="base-history")
     sens = {}
     for mode in ("alias_if_no_nodes", "share_branching", "alias"):     # each aliasing variant must break Isolated
-        rs = run_base_tlc(wd, bt, ct, 3, mode=mode, emit=False)
+        rs = get("base-sens:" + mode)
         sens[mode] = rs.violated or "none"
         if rs.violated != "Isolated":
             V.notes.append(f"DipBase sensitivity: CopyMode {mode} did not violate Isolated ({rs.violated})")
@@ -412,8 +448,12 @@ def run(replay=None):
     samples.append({"cfg": "base-histories", "calls": [{"op": op["op"], "base": op["base"],
                     "text": A.render_base_text(op["text"], "<workdir>"), "res": op["res"]} for op in hists[len(hists) // 2]]})
     # sensitivity of BaseUnchanged: the parse that does not copy the base environment must be caught by TLC
-    cf0 = dict(cfgs[2], bounds=dict(cfgs[2]["bounds"], **{"def": 2, "ref": 1, "late": 0}))
-    r0 = run_tlc(wd, cf0, copy_on_parse=False, emit=False)
+    r0 = get("nocopy")
+    # ---- growth beyond the property (DESIGN 6): node selection and user functions
+    qcov = Q.run_stage(V, get, tier, seed)
+    states += qcov.pop("_states"); trans += qcov.pop("_transitions"); nrec += qcov.pop("_n")
+    samples.append(qcov.pop("_sample"))
+    V.cov.update(qcov)
     V.cov.update({
         "states": states + r0.distinct, "transitions": trans + r0.generated,
         "traces_validated_against_impl": nrec, "evaluations": nrec,
@@ -424,7 +464,7 @@ def run(replay=None):
                 "imports {?p.*} {?p} {?*} inline or indented, <= 1 later modification of source or host), each rendered "
                 "to DIP text(s), parsed by the real DIP and compared with the ideal's env.data(TUPLE) at rel 1e-9; "
                 "non-trivial = accepted programs whose references created at least one node",
-        "samples": samples[:5],
+        "samples": samples[:3] + samples[-2:],
         "exhaustive": True,
         "machine_vs_ideal_deviations": dict(devs),
         "failures_by_kind": {f"{h}|{f}|{' '.join(t)}": n for (h, f, t), n in sorted(stats.items(), key=lambda kv: -kv[1])[:40]},
